@@ -7,7 +7,7 @@
    derived state with their incremental update rules and their re-initialisation from storage ([reinit]).
    The governance theorems are for the REPAIRED code (flags fix_block_dirty: finding F7, fix_gpv_drop: finding F23);
    for each unrepaired behaviour a counter-example history is proved. *)
-From NG Require Import Common.Tactics Tokens.Model Tokens.Inv Tokens.OpProofs Node.Layers Node.Gov Node.GovProofs Node.Restart Node.Witness Node.C01Theorems.
+From NG Require Import Common.Tactics Tokens.Model Tokens.Inv Tokens.OpProofs Node.Layers Node.Gov Node.GovProofs Node.Restart Node.Witness Node.C01Theorems Tokens.Names Auth.Permission Auth.PermStore.
 Open Scope Z_scope.
 
 (* a flush of any number of layers at any time changes no answer of the node *)
@@ -138,6 +138,31 @@ Theorem C01_gas_per_block_first_of_equal_refuted :
   /\ gpb_at_first (c_gpb (A (reach cfg w_gpb))) 3 <> gpb_at_first (c_gpb (A (reinit cfg (reach cfg w_gpb)))) 3.
 Proof. exact gas_per_block_first_of_equal_refuted. Qed.
 Print Assumptions C01_gas_per_block_first_of_equal_refuted.
+
+(* Management: the cached contract state of a restarted node -- rebuilt from the stored stack-item form of the manifest
+   (Permission.FromStackItem . ToStackItem = identity, Auth/PermStoreProofs.v) -- equals the running node's, parsed from
+   JSON at deploy / update time, field by field (id, update counter, permissions, groups, safe methods) after any
+   continuation; hence Manifest.CanCall answers the same on both for every callee and method *)
+Theorem C01_contract_state_restart_transparent : forall cfg, cfg_wf cfg -> fix_block_dirty cfg = true -> fix_gpv_drop cfg = true -> fix_whitelist cfg = true ->
+  0 < csize cfg -> forall bs bs' a, blocks_ok cfg bs -> blocks_ok cfg bs' ->
+  contract_of (fold_left (step cfg) bs' (reinit cfg (reach cfg bs))) a = contract_of (fold_left (step cfg) bs' (reach cfg bs)) a
+  /\ (forall c m, can_call (mc_perms (contract_of (fold_left (step cfg) bs' (reinit cfg (reach cfg bs))) a)) c m
+                  = can_call (mc_perms (contract_of (fold_left (step cfg) bs' (reach cfg bs)) a)) c m).
+Proof. exact contract_state_restart_transparent. Qed.
+Print Assumptions C01_contract_state_restart_transparent.
+
+(* what the round trip must not do: a contract deployed with the permission "every contract, EXPLICITLY EMPTY method list"
+   may not call Management.update; a stored-form reader that turns the empty list into the wildcard (load_bug) would let
+   the restarted node permit it *)
+Theorem C01_manifest_empty_methods_as_wildcard_refuted :
+  let cfg := w_cfg true true in
+  let st := reach cfg w_mf in
+  cfg_wf cfg /\ blocks_ok cfg w_mf
+  /\ contract_of (reinit cfg st) 2 = contract_of st 2
+  /\ can_call (mc_perms (contract_of st 2)) mgmt_callee m_update
+     <> can_call (mc_perms (load_bug (aget ms0 (caddr 2) (mg_store (X st))))) mgmt_callee m_update.
+Proof. exact manifest_empty_methods_as_wildcard_refuted. Qed.
+Print Assumptions C01_manifest_empty_methods_as_wildcard_refuted.
 
 (* non-vacuity: the hypotheses of C01_cache_coherent hold for a concrete configuration and history (the F7 and F23
    histories on the repaired settings), where the committee was elected and changes *)
